@@ -58,6 +58,13 @@ func VerifC14Restart(h *verifh.H) {
 	hs := vNewHistory(h, "a", "b")
 	g := hs.g
 	cur := "a"
+	lastCreated := ""
+	maxDsID := uint32(0)
+	for _, n := range []string{"a", "b"} {
+		if id := hs.hub.Dsm.GetDataset(n).InternalID; id > maxDsID {
+			maxDsID = id
+		}
+	}
 	nops := h.Param("ops", 2)
 	for k := 0; k < nops; k++ {
 		switch h.Choice("op", 5) {
@@ -69,7 +76,13 @@ func VerifC14Restart(h *verifh.H) {
 			v := drawVersion(h, []string{"ns0:e1", "ns0:e2"}, []string{"ns0:e2", "ns0:e3"}, famMixed)
 			h.Assert(hs.hub.Dsm.GetDataset(name).StoreEntities([]*Entity{mkEntity(v)}) == nil, "write accepted")
 			g.write(name, []*mVersion{v})
-		case 1: // delete a
+		case 1: // delete a, or the dataset created last
+			if lastCreated != "" && h.Choice("delLast", 2) == 1 {
+				h.Assert(hs.hub.Dsm.DeleteDataset(lastCreated) == nil, "delete accepted")
+				g.deleteDS(lastCreated)
+				lastCreated = ""
+				break
+			}
 			if cur == "" {
 				h.Assume(false)
 			}
@@ -82,9 +95,13 @@ func VerifC14Restart(h *verifh.H) {
 		case 3: // store job state
 			h.Assert(hs.hub.Store.StoreObject(JobDataIndex, "job-1", &vJobState{ID: "job-1", ContinuationToken: "tok" + itoa(k)}) == nil, "job state stored")
 		case 4: // create another dataset
-			_, err := hs.hub.Dsm.CreateDataset("c"+itoa(k), nil)
+			nd, err := hs.hub.Dsm.CreateDataset("c"+itoa(k), nil)
 			h.Assert(err == nil, "create accepted")
 			g.createDS("c" + itoa(k))
+			lastCreated = "c" + itoa(k)
+			if err == nil && nd.InternalID > maxDsID {
+				maxDsID = nd.InternalID
+			}
 		}
 	}
 	before := hs.vObserveAll(h)
@@ -112,6 +129,20 @@ func VerifC14Restart(h *verifh.H) {
 	h.Assert(ok && rid > maxID, "a new identifier after the restart is not a reused one :: new="+itoa(int(rid))+" maxBefore="+itoa(int(maxID)))
 	nc, err := hs.hub.Dsm.GetDataset("b").GetChanges(chB.NextToken, 0, false)
 	h.Assert(err == nil && len(nc.Entities) == 1 && nc.NextToken > chB.NextToken, "the write after the restart gets a change position beyond the old end")
+	// a dataset created after the restart is a fresh one: a new internal id, no changes, no
+	// entities, and what is written to it can be looked up in it
+	fresh, err := hs.hub.Dsm.CreateDataset("fresh", nil)
+	h.Assert(err == nil, "create after restart accepted")
+	if err == nil {
+		h.Assert(fresh.InternalID > maxDsID, "a dataset created after the restart does not reuse an internal dataset id :: new="+itoa(int(fresh.InternalID))+" maxBefore="+itoa(int(maxDsID)))
+		fc, err := fresh.GetChanges(0, 0, false)
+		h.Assert(err == nil && len(fc.Entities) == 0, "a dataset created after the restart has no changes")
+		fe, err := fresh.GetEntities("", -1)
+		h.Assert(err == nil && len(fe.Entities) == 0, "a dataset created after the restart has no entities")
+		h.Assert(fresh.StoreEntities([]*Entity{mkEntity(nv)}) == nil, "write to the fresh dataset accepted")
+		le, err := hs.hub.Store.GetEntity("ns0:new", []string{"fresh"}, true)
+		h.Assert(err == nil && le != nil && len(le.Properties) == 1, "an entity written to the fresh dataset is found by a lookup scoped to it")
+	}
 	if cur == "" {
 		h.Assert(hs.hub.Dsm.GetDataset("a") == nil, "a deleted dataset stays deleted after the restart")
 		hs.vCheckUnscoped(h, "after restart")
